@@ -352,13 +352,27 @@ Definition civil_check (dz : Z) : bool :=
   (0 <=? y) && (y <=? 9999) && (1 <=? m) && (m <=? 12) && (1 <=? d) && (d <=? 31) &&
   (days_of_civil y m d =? dz) && valid_civil y m d.
 
-Lemma civil_sweep : forallb civil_check (map (fun n => Z.of_nat n - 2) (seq 0 (Z.to_nat 49716))) = true.
+(* the sweep walks a Z counter (no unary number is converted per element: the independent checker has no VM and
+   would need quadratic time for Z.of_nat over seq) *)
+Fixpoint civil_sweep_from (fuel : nat) (dz : Z) : bool :=
+  match fuel with O => true | S f => civil_check dz && civil_sweep_from f (dz + 1) end.
+
+Lemma civil_sweep_from_spec fuel : forall dz, civil_sweep_from fuel dz = true ->
+  forall k, 0 <= k < Z.of_nat fuel -> civil_check (dz + k) = true.
+Proof.
+  induction fuel as [|f IH]; intros dz H k Hk; [lia|].
+  cbn [civil_sweep_from] in H. apply andb_true_iff in H as [H0 H1].
+  destruct (Z.eq_dec k 0) as [->|Hn]; [rewrite Z.add_0_r; exact H0|].
+  replace (dz + k) with (dz + 1 + (k - 1)) by lia. apply (IH _ H1). lia.
+Qed.
+
+Lemma civil_sweep : civil_sweep_from (Z.to_nat 49716) (-2) = true.
 Proof. vm_compute. reflexivity. Qed.
 
 Lemma civil_ok dz : -2 <= dz <= 49713 -> civil_check dz = true.
 Proof.
-  intros H. pose proof civil_sweep as S. rewrite forallb_forall in S. apply S.
-  apply in_map_iff. exists (Z.to_nat (dz + 2)). split; [lia|]. apply in_seq. lia.
+  intros H. replace dz with (-2 + (dz + 2)) by lia.
+  apply (civil_sweep_from_spec _ _ civil_sweep). lia.
 Qed.
 
 Hypothesis tz_bounded : forall v, -86400 <= tz v <= 86400.
